@@ -268,12 +268,18 @@ def gen_cases(rng, nsig, per, rich=False):
 
 
 # ---- the property on the implementation: Python's own binding as the oracle ----
-def declare_ctx(rng, rich=True):
+def declare_ctx(rng, rich=True, bare_static=False):
     """a function or a method (instance / class / static), possibly with Param aliases; returns (callable, raw signature
-    function, descriptors, source)"""
+    function, descriptors, source).  bare_static: `@utype.parse` over `@staticmethod` whose first parameter is a bare
+    positional-or-keyword one (no annotation, no default): an ordinary parameter, not a `self`"""
     for _ in range(40):
         params = rand_sig(rng, rich)
         ctx = rng.choice(["plain", "plain", "plain", "instance", "class", "static", "static-under"])
+        if bare_static:
+            ctx = "static-under"
+            params = [q for q in params if q["kind"] != "po"]
+            first = dict(kind="pk", name="a0", ann=None, default=None)
+            params = [first] + params
         name = dyn.fresh("ofn")
         aliases = {}
         plist = sig_src(params)
@@ -382,10 +388,21 @@ def bind_oracle(case):
 
 def gen_oracle_cases(rng, n, per):
     cases = []
-    for _ in range(n):
-        name, src, params, aliases = declare_ctx(rng)
-        for _ in range(per):
+    for j in range(n):
+        bare = j % 12 == 5
+        name, src, params, aliases = declare_ctx(rng, bare_static=bare)
+        for i in range(per):
             args, kwargs = rand_call(rng, params)
+            if bare and i % 2 == 0 and args:
+                # the bare first parameter by keyword
+                kwargs = dict(kwargs, a0=args[0])
+                rest = [q for q in params if q["kind"] in ("po", "pk")][1:len(args)]
+                for q, x in zip(rest, args[1:]):
+                    if not q["name"].startswith("_"):
+                        kwargs[q["name"]] = x
+                args = [] if all(not q["name"].startswith("_") for q in rest) and len(args) <= len(rest) + 1 else args[:1]
+                if args:
+                    kwargs.pop("a0", None)
             # sometimes use the alias instead of the name
             for k, al in aliases.items():
                 if k in kwargs and rng.random() < 0.6:
